@@ -2,6 +2,7 @@ package tokenizer
 
 import (
 	"bytes"
+	"github.com/ajitpratap0/GoSQLX/pkg/sql/keywords"
 	"sync"
 
 	"github.com/ajitpratap0/GoSQLX/pkg/metrics"
@@ -111,6 +112,10 @@ func GetTokenizer() *Tokenizer {
 func PutTokenizer(t *Tokenizer) {
 	if t != nil {
 		t.Reset()
+		// The dialect is configuration of the previous holder: hand the next one a default tokenizer
+		if t.dialect != keywords.DialectPostgreSQL {
+			t.SetDialect(keywords.DialectPostgreSQL)
+		}
 		tokenizerPool.Put(t)
 
 		// Record pool return
